@@ -19,6 +19,18 @@ NA = {
 }
 
 CHECKS = {
+ "C18": dict(
+   engine="E1-style optimiser history machine",
+   technique="deterministic simulation (scoped): model-based checking of GpOptimiser propose/add histories under a seeded global random stream, with outlier / near-duplicate evaluation faults; formula clauses only spot-checked at reached states",
+   text=("SCOPED: decides the history clauses of C18 - every proposal inside the closed search box, an added evaluation is part of the data "
+         "the next regressor is fitted to and updates the incumbent, every array passed by the caller stays byte- and shape-identical - for "
+         "generated sequences of propose / add (proposal, seeded point, near-duplicate, outlier) calls over d in {1,2}, EI/UCB/max-variance, "
+         "bfgs/differential evolution, with/without y_err, several input array forms. The formula clauses (EI both branches, UCB, max "
+         "variance, value-and-gradient form) are pure functions of the regressor state; they are attached only as spot oracles at the states "
+         "the histories reach (EI vs quadrature in log space, gradients vs two-step central differences). No coverage 'for all predictive "
+         "means and variances' is claimed."),
+   design_ref="DESIGN.md 3.8",
+   note="Trusted: quadrature reference for EI (|Z|<=30); finite differences only where two step sizes agree to 1e-4. multiprocessing.Pool is trip-wired (n_processes=1 only)."),
  "C01": dict(
    engine="E1 history refinement + E3 replica ensembles",
    technique="deterministic simulation: recorded RNG/posterior-call histories of seeded runs refined attempt by attempt against the Metropolis-Hastings rule (with tail-draw, edge-uniform, -inf moat and exchange faults); exact-null stationarity tests over seeded replica ensembles started from exact draws; long-run moment check",
@@ -117,7 +129,7 @@ def build():
                  kind_free_text="deterministic discrete-event simulator (baton-passing threads, simulated multiprocessing transport, recording RNG proxies, fake clock), Hypothesis as seeded scenario generator/shrinker, replay files"),
         ],
         checks=checks,
-        notes="Technique family: deterministic simulation with fault injection. See DESIGN.md. Known findings (if any) are listed in /verif/known_findings.json.",
+        notes="Technique family: deterministic simulation with fault injection. See DESIGN.md. Known findings (F1, F2, F3, F4) and the list of repaired defects are in /verif/known_findings.json. Self-tests: selftest/determinism.py, selftest/mutants.py.",
         not_applicable=[dict(property_id=k, reason=v) for k, v in sorted(NA.items())],
     )
     with open(os.path.join(HERE, "MANIFEST.json"), "w") as f:
